@@ -123,6 +123,7 @@ func (p *StageWorkerPool) worker(ctx context.Context) {
 				return
 			}
 
+			verifBeforeProcess(p.stage, item)
 			err := p.stage.Process(ctx, item)
 
 			// Record metrics only for actual processing attempts (not context cancellation)
